@@ -14,6 +14,9 @@ func TestDerive(t *testing.T) {
 	gomspec.DeriveCheck(t, "derive/packages", kit.Pick(4, 100), "")
 	// focused on @fp.Derive(recursive=true) over nested plain structs with exported / mixed-visibility fields
 	gomspec.DeriveCheck(t, "derive/recursive-plain", kit.Pick(2, 50), "recursive-plain")
+	// focused on a generic struct D1[TA, TB] whose fields use the parameters in either order, used as a field
+	// type (directly, by pointer, in a slice) by a later struct that derives the same classes
+	gomspec.DeriveCheck(t, "derive/generic-nested", kit.Pick(2, 50), "generic-nested")
 }
 
 func TestPrecedence(t *testing.T) {
